@@ -506,6 +506,7 @@ fn repoll(tv: usize) {
 fn block_on(cx: &Cx, tv: usize, source: &Observable<'static, V>) {
   let tvx = atom(tv);
   let fut = source.to_vec();
+  let fut2 = fut.clone(); // a second awaiter of the same to_vec state (clones share it): polled once the first has resolved
   let mut fut = std::pin::pin!(fut);
   let mut k = 0usize;
   let res = loop {
@@ -528,14 +529,25 @@ fn block_on(cx: &Cx, tv: usize, source: &Observable<'static, V>) {
   if let Some(m) = CURRENT_TOKEN.lock().unwrap().as_mut() {
     m.remove(&tv);
   }
-  let r = match res {
+  let show = |res: Result<Arc<fsync::RwLock<Vec<V>>>, RxError>| match res {
     Ok(buf) => {
       let items: Vec<V> = buf.read().unwrap().clone();
       tagged("ok", items.iter().map(|v| v.to_sx()).collect())
     }
     Err(e) => tagged("err", vec![Sx::A(err_id(&e))]),
   };
-  cx.rec.ev("result", vec![tvx, r]);
+  let r = show(res);
+  cx.rec.ev("result", vec![tvx.clone(), r]);
+  // the clone resolves at once, to the same result
+  let mut fut2 = std::pin::pin!(fut2);
+  let token = Arc::new(Token { flag: fsync::Mutex::new(false), cv: fsync::Condvar::new() });
+  let waker = std::task::Waker::from(token);
+  let mut tcx = std::task::Context::from_waker(&waker);
+  let r2 = match fut2.as_mut().poll(&mut tcx) {
+    std::task::Poll::Ready(r) => show(r),
+    std::task::Poll::Pending => Sx::A("pending".into()),
+  };
+  cx.rec.ev("result2", vec![tvx, r2]);
 }
 
 // ---------------------------------------------------------------- interpreter
